@@ -24,7 +24,7 @@ def shards(tier):
     out = []
     for t in range(4):
         for p in (0, 1):
-            ds = [0] if t != 0 else ([0, 1, 2, 3] if p == 0 else [0, 1, 2, 3, 4])
+            ds = [0] if t != 0 else ([0, 1, 2, 3, 5, 6] if p == 0 else [0, 1, 2, 3, 4])
             for d in ds:
                 for o in (0, 1):
                     out.append((t, p, d, o))
@@ -88,6 +88,25 @@ def text_stage(rep):
         want_out = [nm for nm in ("y", "y2") if re.search(rf"output Real {nm}\b", decl) and (nm in cats["states"] + cats["alg_states"])]
         if sorted(outs) != sorted(want_out):
             rep.violation(case + ":outputs", f"outputs = {outs}, expected {want_out}", {"model_text": text})
+    # String constants / parameters: scalars, arrays, and scalars inside an array of components
+    for decl, names in (('parameter String tag = "a";', ["tag"]), ('constant String tag = "a";', ["tag"]),
+                        ('parameter String tags[2] = {"a", "b"};', ["tags"]), ('constant String tags[2] = {"a", "b"};', ["tags"]),
+                        ('Tank row[2];', ["row.name", "row.kind"]), ('Tank one;', ["one.name", "one.kind"])):
+        text = ('model Tank\n  parameter String name = "t";\n  constant String kind = "k";\n  parameter Real vol = 2;\n  Real lvl;\nequation\n  lvl = vol;\nend Tank;\n'
+                f"model M\n  {decl}\n  Real z;\nequation\n  z = 1;\nend M;\n")
+        n += 1
+        case = f"text:string[{decl}]"
+        try:
+            m = generator.generate(parser.parse(text, bypass_cache=True), "M", {})
+        except Exception as e:
+            rep.coverage["string_models_rejected"] = rep.coverage.get("string_models_rejected", 0) + 1
+            continue
+        cats, ders, outs = h10.observe(m)
+        for nm in names:
+            where = [k for k in cats for x in cats[k] if x == nm]
+            want = "string_constants" if ("constant String" in decl or nm.endswith(".kind")) else "string_parameters"
+            if where != [want]:
+                rep.violation(case + f":{nm}", f"String variable {nm} is classified {where or 'nowhere'}, expected [{want}]", {"model_text": text})
     rep.coverage["real_text_spellings_checked"] = n
     return n
 
@@ -159,7 +178,7 @@ def main():
     cov["functions_encoded"] = ["tree.flatten, tree.annotate_states, casadi.generator.Generator.exitClass/_ast_symbols_to_variables/get_derivative (executed symbolically by CrossHair)"]
     cov["bounds"] = ("one subject variable + fixed neighbours; symbolic: flow flag x variability {none,discrete,parameter,constant} x causality {none,input,output}; "
                      "enumerated shards: type {Real,Integer,Boolean,String} x {top-level, nested component} x der usage {none, direct, inside an expression, "
-                     "initial equation only, from the enclosing model} x declaration order")
+                     "initial equation only, from the enclosing model, after a closed sub-expression inside der()} x declaration order")
     rep.assumptions += ["combinations Modelica forbids (der of non-Real / constant / parameter / discrete, String variables that are not constants or parameters) are excluded by precondition",
                         "declaration order is asserted between variables declared in the same class instance only",
                         "the prefix list is written into the parsed template; the real-text stage checks that the parser produces the same list for every spelling"]
